@@ -1,4 +1,4 @@
-CONSTANTS U <- UT  DevBoolIsInt = FALSE  DevHashByRep = FALSE  KeySeq <- KeysQ  MaxDepth = 0
+CONSTANTS U <- UT  DevBoolSeq = FALSE  DevBoolKey = FALSE  DevHashByRep = FALSE  KeySeq <- KeysQ  MaxDepth = 0
 INIT InitTI
 NEXT NextTI
 INVARIANT Reflexive
